@@ -1345,3 +1345,6 @@ package ring
 //@   requires forall(i, 0, r.level+1, disjoint(polOut.Coeffs[i], index))
 //@   loop 0 invariant 0 <= j && j <= N && j % 8 == 0 && forall(k, 0, n, index[k] < n)
 //@   loop 1 invariant 0 <= i && i <= level+1 && forall(k, 0, n, index[k] < n)
+
+//@ afunc AutomorphismNTTIndex
+//@   trusted opaque at the abstract level: the index table of a Galois element, or an error
